@@ -3,7 +3,10 @@
 EXTENDS Macros
 DensQuick    == <<RZero, RFrac(1, 2), RInt(2)>>
 DensThorough == <<RZero, RFrac(1, 2), RInt(1), RFrac(1, 3), RFrac(5, 4)>>
-PairQuick    == <<RZero, RInt(2)>>
+\* second operands of AdditiveOverCompositions: two fixed compositions (quick), sixteen with non-dyadic densities (thorough)
+PairQuick    == {[n \in Nuc |-> RInt(1)], [n \in Nuc |-> IF n % 2 = 1 THEN RInt(2) ELSE RFrac(1, 2)]}
+PairThorough == [Nuc -> {RFrac(1, 3), RFrac(5, 4)}]
+DensMcThorough == <<RZero, RFrac(1, 2), RFrac(1, 3), RFrac(5, 4)>>
 EmitCase == Complete => PrintT(ToJson([case |-> CaseJson]))
 \* the micro tables, printed once (the harness builds the real libraries from them)
 ASSUME \A v \in Variants : PrintT(ToJson(TableJson(v)))
